@@ -84,6 +84,13 @@ reg('C04', 'Hypothesis generated dataset directories (switch product) vs stored-
     'absent files), non-monotonic variants must be rejected, and SHA-256 hashes of the directory '
     'before/after loading decide the no-modification / created-files clauses.', TRUST + DS)
 
+reg('C05', 'Hypothesis generated datasets/geometries/requests vs definition oracle with tie bands',
+    'Generated dense and sparse template sets, geometries with distance ties, shank layouts, '
+    'whitening matrices, thresholds and explicit channel lists; each returned record is checked '
+    'clause by clause (distinctness, ordering, peak first, column and amplitude alignment, exact '
+    'channel set up to documented don\'t-care bands) against quantities recomputed from the '
+    'stored arrays.', TRUST + DS + ' float32 rounding handled by rtol 1e-5 and decision bands.')
+
 
 def main():
     props = [json.loads(l) for l in (HERE / 'properties.jsonl').read_text().splitlines() if l.strip()]
